@@ -89,14 +89,15 @@ PROPS["C07"] = {
     "technique": "Verus: ghost window model (root matrix, origin, extent, transposed flag) as representation invariant on the extracted Shape/Surface/SurfaceMut/iterator code (unbounded); Kani for the ViewBounds contract of every impl and a bounded twin",
     "level_text": "Proved (Verus, all sizes and all chains by induction on the invariant): Shape::from/view keep `rep` (the shape denotes the sub-window the bounds select; empty on absent bounds); transpose flips the window; "
                   "offset of every in-window position is the root cell the model says, lies inside the buffer and is injective; nth/iteration is row-major with exactly h*w items; get/is_empty/view/view_owned/as_ref/iter "
-                  "(trait defaults, verified in place); fill/clear/set write only offsets of window cells (frame); view_mut/as_mut/iter_mut hand the same window on; SurfaceMutIter::nth's raw-pointer access is in bounds and never repeats an offset; "
+                  "(trait defaults, verified in place); fill/fill_with/clear/set write only offsets of window cells (frame); get_mut lends out exactly the cell of an in-window position (whatever is written through it is the only change) and None outside; "
+                  "to_owned_surf reads in-window cells only and yields an owned surface of the window's size; view_mut/as_mut/iter_mut hand the same window on; SurfaceMutIter::nth's raw-pointer access is in bounds and never repeats an offset; "
                   "SurfaceOwned::new_with builds a surface that satisfies the invariant (base case) and the real shape()/data()/data_mut() of SurfaceOwned, SurfaceView and SurfaceMutView discharge the trait contract, so the defaults apply to them. "
-                  "The ViewBounds trait contract assumed there is proved for all 61 impls (Kani, complete). insert/map/fill_with/to_owned_surf and forwarding impls only through the bounded twin.",
+                  "The ViewBounds trait contract assumed there is proved for all 61 impls (Kani, complete). insert/map and forwarding impls only through the bounded twin.",
     "level_note": "Assumed: the raw pointer dereference itself, &/&mut/Arc/Box forwarding impls, Clone/Default of items, hash; preconditions index+n+1 <= usize::MAX on nth and buffer length <= isize::MAX.",
     "assumptions": [
         "surfaces are built from SurfaceOwned/Shape::from and view/transpose (SurfaceView::new with an arbitrary Shape is outside the domain)",
         "slice length <= isize::MAX (Rust allocation invariant); Iterator::nth is called with index + n + 1 <= usize::MAX",
-        "SurfaceMut::{insert,fill_with,get_mut}, Surface::{map,to_owned_surf,hash}, `impl SurfaceMut for SurfaceMutView`, SurfaceOwnedView and the &/&mut/Arc/Box forwarding impls: not under Verus contract; the bounded Kani twin (3x4 surface, incl. depth-2 chains in the thorough tier) exercises insert/iter/get through nested and transposed views",
+        "SurfaceMut::insert (iterator zip), Surface::map (its closure captures the caller's `mut f`: unsupported), Surface::hash; which value fill_with stores where (FnMut ensures cannot be accumulated across calls in Verus: only its frame is proved), `impl SurfaceMut for SurfaceMutView`, SurfaceOwnedView and the &/&mut/Arc/Box forwarding impls: not under Verus contract; the bounded Kani twin (3x4 surface, incl. depth-2 chains in the thorough tier) exercises insert/iter/get through nested and transposed views",
     ],
 }
 
